@@ -34,7 +34,11 @@ VP_HARNESS(h_depth)
     for (unsigned i = 0; i < NG; i++) { w *= dg[i]; VP_CHECK(data->level[i + 2].attr.type == HWLOC_OBJ_GROUP && data->level[i + 2].totalwidth == w && data->level[i + 2].arity == dg[i + 1], "Group levels with the arities and widths written in the string"); }
     VP_CHECK(data->level[NG + 2].attr.type == HWLOC_OBJ_PU && data->level[NG + 2].totalwidth == w * dg[NG] && data->level[NG + 2].arity == 0, "PU level last, terminated by arity 0");
   } else VP_CHECK(r == -1 && errno == EINVAL, "too many levels are rejected with EINVAL");
-  if (NG + 2 <= HWLOC_SYNTHETIC_MAX_DEPTH - 1) VP_WITNESS_IF(r == 0, "accepted"); else VP_WITNESS_IF(r == -1, "rejected");
+#if NG + 3 <= HWLOC_SYNTHETIC_MAX_DEPTH
+  VP_WITNESS_IF(r == 0, "accepted");
+#else
+  VP_WITNESS_IF(r == -1, "rejected");
+#endif
 }
 
 /* ---- arbitrary bytes ------------------------------------------------------------------------------------------------ */
